@@ -27,8 +27,8 @@ REPO = os.environ.get("VERIF_REPO", "/repo")
 BUILD = os.path.join(VERIF, "build")
 BIN = os.path.join(BUILD, "checks.test")
 KNOWN = os.path.join(VERIF, "known_findings.json")
-EVID = os.path.join(VERIF, "evidence")
-VIOL = os.path.join(VERIF, "violations")
+EVID = os.environ.get("VERIF_EVIDENCE_DIR") or os.path.join(VERIF, "evidence")  # the override is used by tools_seeded.py only
+VIOL = os.environ.get("VERIF_VIOLATIONS_DIR") or os.path.join(VERIF, "violations")
 REPLAYS = os.path.join(VERIF, "replays")
 NCPU = os.cpu_count() or 4
 
